@@ -162,6 +162,9 @@ def oracle_ledgers(h):
                         lp_received[u] = lp_received.get(u, 0) + dlp
                     elif dlp != 0:
                         out.append(viol('C09', i, 'second_payout', 'account %d got %d launchpad tokens on a repeated / foreign claim' % (u, dlp)))
+            if ok and rng and len(rng) >= 2 and rng[1] < rng[0] and r['bal']:
+                # an account whose range is empty holds no ticket: it can obtain nothing, not even a souvenir
+                out.append(viol('C09', i, 'no_ticket_claim', 'account %d holds the empty range %r and obtained something from its claim: %r' % (c.caller, rng, sorted(r['bal'].items())[:3])))
             if ok and v in VESTED and c.caller in lp_received:
                 wins = settled.get(c.caller, (0, 0))[0]
                 if lp_received[c.caller] > tpt * wins:
